@@ -142,6 +142,9 @@ def drvStep (db : DB) (args : List String) : DB × String :=
   match args with
   | ["reset"] => (DB.init, "ok")
   | ["obs"] => (db, obsStr db)
+  -- a crash / abort inside a transaction: the file holds the pre-transaction state (bbolt, trusted); the token is
+  -- the outcome the harness observed (`crash`, or the error/panic that came first)
+  | ["crash"] => (db, "crash")
   | ["complete"] => doOp db .complete
   | ["discard"] => doOp db .discard
   | ["reopen"] => doOp db .reopen
